@@ -12,9 +12,12 @@ use tyme4rs::tyme::jd::JulianDay;
 use tyme4rs::tyme::lunar::{LunarDay, LunarHour, LunarMonth, LunarWeek, LunarYear};
 use tyme4rs::tyme::sixtycycle::{SixtyCycle, SixtyCycleYear};
 use tyme4rs::tyme::solar::{SolarDay, SolarHalfYear, SolarMonth, SolarSeason, SolarTime, SolarWeek, SolarYear};
+use tyme4rs::tyme::festival::{LunarFestival, SolarFestival};
+use tyme4rs::tyme::culture::fetus::FetusDay;
+use tyme4rs::tyme::Culture;
 use crate::util::*;
 
-const OPS: &[&str] = &["eq.v", "eq.cyc"];
+const OPS: &[&str] = &["eq.v", "eq.cyc", "lhour.cmp", "ec.names", "fetus.wire"];
 
 pub fn exec(op: &str, a: &[i64]) -> Option<Option<String>> {
   if !OPS.contains(&op) { return None; }
@@ -37,7 +40,7 @@ fn limit(a: &[i64]) -> Option<ChildLimit> {
 
 /// arity of one value of the kind
 pub fn arity(kind: i64) -> Option<usize> {
-  Some(match kind { 1 => 3, 2 => 2, 3 => 1, 4 => 6, 5 => 4, 6 => 1, 7 => 2, 8 => 3, 9 => 6, 10 => 4, 11 => 4, 12 => 6, 13 => 1, 14 => 7, 15 => 8, 16 => 8, 17 => 2, 18 => 2, _ => return None })
+  Some(match kind { 1 => 3, 2 => 2, 3 => 1, 4 => 6, 5 => 4, 6 => 1, 7 => 2, 8 => 3, 9 => 6, 10 => 4, 11 => 4, 12 => 6, 13 => 1, 14 => 7, 15 => 8, 16 => 8, 17 => 2, 18 => 2, 19 => 2, 20 => 2, _ => return None })
 }
 
 pub fn go(op: &str, a: &[i64]) -> Option<String> {
@@ -82,8 +85,32 @@ pub fn go(op: &str, a: &[i64]) -> Option<String> {
         16 => cmp!(DecadeFortune::from_child_limit(limit(&x[..7])?, x[7] as isize), DecadeFortune::from_child_limit(limit(&y[..7])?, y[7] as isize)),
         17 => cmp!(SolarHalfYear::new(x[0] as isize, us(x[1])?).ok()?, SolarHalfYear::new(y[0] as isize, us(y[1])?).ok()?),
         18 => cmp!(SolarSeason::new(x[0] as isize, us(x[1])?).ok()?, SolarSeason::new(y[0] as isize, us(y[1])?).ok()?),
+        19 => cmp!(SolarFestival::from_index(x[0] as isize, us(x[1])?)?, SolarFestival::from_index(y[0] as isize, us(y[1])?)?),
+        20 => cmp!(LunarFestival::from_index(x[0] as isize, us(x[1])?)?, LunarFestival::from_index(y[0] as isize, us(y[1])?)?),
         _ => None,
       }
+    }
+    // two civil instants -> their lunar hours: is_before, is_after, == (the order of lunar hours is the order of the instants)
+    "lhour.cmp" if a.len() == 12 => {
+      let t = |v: &[i64]| -> Option<LunarHour> { Some(SolarTime::new(v[0] as isize, us(v[1])?, us(v[2])?, us(v[3])?, us(v[4])?, us(v[5])?).ok()?.get_lunar_hour()) };
+      let (x, y) = (t(&a[..6])?, t(&a[6..])?);
+      Some(format!("{} {} {}", x.is_before(y.clone()) as u8, x.is_after(y.clone()) as u8, (x == y) as u8))
+    }
+    // eight characters built FROM THE NAMES of four pillars: the pillars read back
+    "ec.names" if a.len() == 4 => {
+      let n = |i: i64| SixtyCycle::from_index(i as isize).get_name();
+      let e = EightChar::new(&n(a[0]), &n(a[1]), &n(a[2]), &n(a[3]));
+      Some(format!("{} {} {} {}", e.get_year().get_index(), e.get_month().get_index(), e.get_day().get_index(), e.get_hour().get_index()))
+    }
+    // the foetus spirit of a civil day through the lunar day and through the sexagenary day: both must be the spirit of the day's pillar
+    "fetus.wire" if a.len() == 3 => {
+      let d = SolarDay::new(a[0] as isize, us(a[1])?, us(a[2])?).ok()?;
+      let l = d.get_lunar_day();
+      let q = |f: &FetusDay| format!("{}/{}/{}/{}", f.get_fetus_heaven_stem().get_index(), f.get_fetus_earth_branch().get_index(), f.get_side() as usize, f.get_direction().get_index());
+      let f0 = q(&FetusDay::new(l.get_sixty_cycle()));
+      let f1 = q(&l.get_fetus_day());
+      let f2 = q(&d.get_sixty_cycle_day().get_fetus_day());
+      if f0 == f1 && f0 == f2 { Some("ok".to_string()) } else { Some(format!("DIFF pillar={} lunar-day={} sexagenary-day={}", f0, f1, f2)) }
     }
     _ => Some("bad-op".to_string()),
   }
